@@ -358,11 +358,37 @@ Fixpoint spec_run (fs : list fact) (c : c07case) : nat :=
   end.
 Definition spec_class (c : c07case) : nat := spec_run [] c.
 
-Fixpoint classify_from (i : nat) (l : list c07case) : list (nat * nat) :=
+(* ---- the recorded finding (findings/C07.json): the default branch after a merge ----
+   A merge node carries the empty branch name, so merging from a master node V gives V a second
+   child on branch "": master then has two leaves, and "uuid:master~n" / branch-versions/master,
+   which walk the branch from a node found by ranging over a Go map, resolve to either lineage or
+   fail, from call to call.  The deterministic part, visible in the repo info JSON, is judged: in the
+   final facts some repo has two nodes of branch "" that no child continues on branch "".
+   Class 30 is returned only for the corpus case of kind 1 and only if nothing else is wrong with it;
+   every other case is judged by [spec_class] alone. *)
+Definition final_facts (c : c07case) : list fact :=
+  fold_left (fun fs x => apply_deltas fs (snd x)) c [].
+
+Definition default_two_leaves_b (fs : list fact) : bool :=
+  let ns := onodes fs in
+  existsb (fun x =>
+    let rn := nodes_of (fst (fst x)) ns in
+    let dn := List.filter (fun m => String.eqb (on_br m) "") rn in
+    let on_default (v : N) := existsb (fun m => N.eqb (on_v m) v) dn in
+    Nat.leb 2 (length (List.filter (fun m => negb (existsb on_default (on_cs m))) dn))) (orepos fs).
+
+Definition kcase := (nat * c07case)%type.
+Definition spec_class_k (kc : kcase) : nat :=
+  match spec_class (snd kc) with
+  | O => if Nat.eqb (fst kc) 1 && default_two_leaves_b (final_facts (snd kc)) then 30 else 0
+  | k => k
+  end.
+
+Fixpoint classify_from (i : nat) (l : list kcase) : list (nat * nat) :=
   match l with
   | [] => []
-  | c :: r => let k := spec_class c in
+  | c :: r => let k := spec_class_k c in
               if Nat.eqb k 0 then classify_from (S i) r else (i, k) :: classify_from (S i) r
   end.
-Definition c07_spec_fail (l : list c07case) : list (nat * nat) := classify_from 0 l.
-Definition c07_model_mismatch (l : list c07case) : list nat := find_idx (fun c => negb (model_ok c)) l.
+Definition c07_spec_fail (l : list kcase) : list (nat * nat) := classify_from 0 l.
+Definition c07_model_mismatch (l : list kcase) : list nat := find_idx (fun c => negb (model_ok (snd c))) l.
